@@ -744,6 +744,43 @@ pub fn run_entry<K: KeyT, V: ValT>(m: &mut M<K, V>, _other: &mut M<K, V>, name: 
             }
             out.join(",")
         }
+        // consumed through `fold` (for_each) by a consumer that panics at the n-th element (0 = to completion)
+        ("into_keys_fold", 1) | ("into_values_fold", 1) => {
+            let old = std::mem::replace(m, new_map());
+            let mut out: Vec<String> = Vec::new();
+            let stop = n(0) as usize;
+            let keys = name == "into_keys_fold";
+            let r = std::panic::catch_unwind(std::panic::AssertUnwindSafe(|| {
+                if keys {
+                    old.into_keys().for_each(|k| {
+                        out.push(fmt_k(&k));
+                        quiet();
+                        drop(k);
+                        loud();
+                        if out.len() == stop {
+                            std::panic::panic_any(tape::TapePanic("consumer"));
+                        }
+                    });
+                } else {
+                    old.into_values().for_each(|v| {
+                        out.push(fmt_v::<K, V>(&v));
+                        quiet();
+                        drop(v);
+                        loud();
+                        if out.len() == stop {
+                            std::panic::panic_any(tape::TapePanic("consumer"));
+                        }
+                    });
+                }
+            }));
+            if let Err(p) = r {
+                match p.downcast_ref::<tape::TapePanic>() {
+                    Some(tp) if tp.0 == "consumer" => {}
+                    _ => std::panic::resume_unwind(p),
+                }
+            }
+            out.join(",")
+        }
         ("values_mut_set", 1) => {
             let nv = n(0);
             for v in m.values_mut() {
@@ -976,9 +1013,11 @@ pub fn ref_entry(
                 Some(fe(n(0), &e))
             }
         }
-        "into_keys" | "into_values" => {
+        "into_keys" | "into_values" | "into_keys_fold" | "into_values_fold" => {
+            let fold = name.ends_with("_fold");
+            let name = name.trim_end_matches("_fold");
             let got: Vec<&str> = if ret.is_empty() { vec![] } else { ret.split(',').collect() };
-            let want = std::cmp::min(n(0) as usize, r.len());
+            let want = if fold && n(0) == 0 { r.len() } else { std::cmp::min(n(0) as usize, r.len()) };
             if got.len() != want {
                 return Err(format!("{} yielded {} items, expected {}", name, got.len(), want));
             }
